@@ -192,6 +192,57 @@ def coverage_schedules(rng):
     return out
 
 
+def light_sys(rng):
+    """A small task: one or two views, mostly mutable, shallow filter, sometimes a resource or an entry view."""
+    nv = rng.choice([1, 1, 1, 2])
+    cs = rng.sample(range(len(COMPS)), nv)
+    views = [(rng.choice([K_MUT, K_MUT, K_MUT, K_REF, K_OPTMUT, K_OPT]), c) for c in cs]
+    if rng.random() < 0.15:
+        views.insert(rng.randint(0, len(views)), (K_ID, None))
+    filt = ("none",)
+    r = rng.random()
+    if r < 0.2:
+        filt = ("has", rng.randrange(len(COMPS)))
+    elif r < 0.4:
+        filt = ("not", ("has", rng.randrange(len(COMPS))))
+    res = []
+    if rng.random() < 0.2:
+        res = [(rng.choice([K_REF, K_MUT]), rng.randrange(len(RES)))]
+    entry = []
+    if rng.random() < 0.2:
+        viewed = {c for (k, c) in views if k != K_ID}
+        cand = [c for c in range(len(COMPS)) if c not in viewed]
+        if cand:
+            entry = [(rng.choice([K_REF, K_MUT, K_OPT, K_OPTMUT]), rng.choice(cand))]
+    return Sys(rng.random() < 0.25, views, filt, res, entry)
+
+
+def greedy_groups(tasks):
+    groups = []
+    for i, t in enumerate(tasks):
+        if groups and all(not conflicts(tasks[j], t) for j in groups[-1]):
+            groups[-1].append(i)
+        else:
+            groups.append([i])
+    return groups
+
+
+def staged_schedules(rng, count):
+    """Schedules with two adjacent wide stages (rejection sampling over small random tasks): the
+    shapes in which several candidates of the next stage are accepted or refused one after another
+    while the running stage holds claims of several tasks."""
+    out = []
+    while len(out) < count:
+        nt = rng.choice([5, 5, 6])
+        tasks = [light_sys(rng) for _ in range(nt)]
+        g = greedy_groups(tasks)
+        ok = any(len(g[i]) >= 2 and len(g[i + 1]) >= 2 and len(g[i]) + len(g[i + 1]) >= 5 for i in range(len(g) - 1)) or \
+            any(len(g[i]) >= 1 and len(g[i + 1]) >= 3 and i + 2 < len(g) for i in range(len(g) - 1))
+        if ok:
+            out.append(("staged", tasks))
+    return out
+
+
 def emit_system(w, name, task, salt, s):
     trait = "ParSystem" if s.par else "System"
     w(f"pub struct {name} {{ pub st: SysState }}")
@@ -324,6 +375,8 @@ def main():
     rng = random.Random(f"sched-{seed}-{start}" if start else f"sched-{seed}")
     cov = [] if random_only else coverage_schedules(rng)
     scheds = list(cov)
+    if "--staged" in sys.argv:
+        scheds = staged_schedules(rng, nbins * per)
     while len(scheds) < nbins * per:
         nt = rng.choice([2, 3, 3, 4, 4, 5, 6])
         bias = rng.randrange(len(COMPS))
